@@ -259,7 +259,7 @@ LEVELS = {
         "technique": 'Coq proof (induction on depth fuel with top-level helpers, append-only buffer invariant, rule contract) + generator with by-construction expectations evaluated in Coq against implementation and model',
     },
     "C16": {
-        "text": "Theorems in Coq: the rule set in force for a struct is the typed set of its type wherever it occurs, else for the outermost struct the unscoped set (validate_body = on_fields with effective_rules); a supplied rule replaces the tag rule entirely, unmentioned fields keep theirs; name resolution is this call's function, then the global one, then the built-in; an unknown name writes one error clause and the remaining rules are evaluated. Tied by configurations over a fixed three-type graph with expectations computed from the property text.",
+        "text": "Theorems in Coq: the rule set in force for a struct is the typed set of its type wherever it occurs, else for the outermost struct the unscoped set (validate_body = on_fields with effective_rules); a supplied rule replaces the tag rule entirely, unmentioned fields keep theirs; name resolution is this call's function, then the global one, then the built-in; an unknown name writes one error clause and the remaining rules are evaluated. The go/ast syntax tree of validCommon.getValidFn (valid/abstract.go) is REGENERATED FROM /repo ON EVERY RUN and, under the block-scoped semantics of Model/GoWalk.v (comma-ok map lookups on this call's functions and on the global table, errors.New), proved to compute exactly that resolution with the is-not-exist error made explicit (C16_lookup_from_source); the getValidFn methods of VVar, VMap and VUrl are, syntactically, the delegation to it. Tied by configurations over a fixed three-type graph with expectations computed from the property text.",
         "design_ref": "DESIGN.md section 5, C16",
         "note": 'Where the property text is silent the observed scoping is adopted and stated in the spec (DESIGN appendix B).',
         "technique": 'Coq proof (induction on depth fuel with top-level helpers, append-only buffer invariant, rule contract) + generator with by-construction expectations evaluated in Coq against implementation and model',
@@ -271,7 +271,7 @@ LEVELS = {
         "technique": 'Coq proof (induction on depth fuel with top-level helpers, append-only buffer invariant, rule contract) + generator with by-construction expectations evaluated in Coq against implementation and model',
     },
     "C18": {
-        "text": 'Theorems in Coq: for every rule text that resolves to a rule function and every non-zero value the struct, variable, map and (strings) URL validators call the same function, and every function of the rule table has a verdict independent of the object/field names; hence identical verdicts, only the path differs. Tied by presenting each specimen through every entry point and comparing marker sets.',
+        "text": 'Theorems in Coq: for every rule text that resolves to a rule function and every non-zero value the struct, variable, map and (strings) URL validators call the same function, and every function of the rule table has a verdict independent of the object/field names; hence identical verdicts, only the path differs. The go/ast syntax tree of VVar.validate (valid/validvar.go) is REGENERATED FROM /repo ON EVERY RUN and proved (loop lemma over the range loop with continue, block scoping, switch, nil-function test, IsZero with its panic) to BE the variable walker of the model for every configuration, rule map, value and buffer (C18_var_walker_from_source), VVar.Valid as a whole being that followed by getError (C18_var_entry_from_source); VMap.getKey is the entry path of the model (C18_map_key_path_from_source). Tied by presenting each specimen through every entry point and comparing marker sets.',
         "design_ref": "DESIGN.md section 5, C18",
         "note": "Known findings C18-iface-map-values and C18-url-reserved are outside the theorems' hypotheses (interface-kind values; percent-encoded reserved characters).",
         "technique": 'Coq proof (induction on depth fuel with top-level helpers, append-only buffer invariant, rule contract) + generator with by-construction expectations evaluated in Coq against implementation and model',
@@ -462,6 +462,15 @@ _ROUND6 = {
     "C18": "Rule arguments that end with a blank as the last thing in the rule text.",
     "C20": "A panic of the dumper is recovered and reported with its input.",
 }
+_ROUND7 = {
+    "C02": "Group objects (nested by value, in a slice) FOLLOWED by fields with violated ordinary rules, compared in order: the group clauses still come last.",
+    "C03": "Empty but non-nil slices under size rules (ge / eq / to / gt): not the zero value, so the rule is evaluated and fires (struct field and single variable); the nil slice of the same type is skipped.",
+    "C12": "Inputs are copied deeply before each call (slices, arrays, maps, struct fields) and compared afterwards; slices whose elements are out of order under unique (variable and struct field).",
+    "C15": "Messages with '%' (format verbs) in the directed grid, which now meets every entry point (variable, struct, map) with every message shape.",
+    "C16": "Before one struct call in four: refused calls (nil source, typed nil pointer of the measured object's own type) carrying an unscoped rule set and a rule set for that very type, over its own field names.",
+}
+for _p, _t in _ROUND7.items():
+    _ROUND6[_p] = (_ROUND6.get(_p, "") + " " + _t).strip()
 for _p, _t in _ROUND6.items():
     _ROUND5[_p] = (_ROUND5.get(_p, "") + " " + _t).strip()
 for _p, _t in _ROUND5.items():
